@@ -797,6 +797,17 @@ int verify_defs(struct jls_rd_s *rd, const model_t *m, const verify_opts_t *o) {
                 snprintf(key, sizeof(key), "signals|field|%s|%s", what, fk(o));
                 v_violation("C13", key, wj, "signal %d field %s differs from the accepted definition", id, what); bad = 1; break;
             }
+            /* the time-series decimation factors as used for storage: 0 -> default 100, 1 -> minimum 2, otherwise as given */
+            {
+                uint32_t ea = w->annotation_decimate_factor ? (w->annotation_decimate_factor < 2 ? 2 : w->annotation_decimate_factor) : 100;
+                uint32_t eu = w->utc_decimate_factor ? (w->utc_decimate_factor < 2 ? 2 : w->utc_decimate_factor) : 100;
+                if (g->annotation_decimate_factor != ea || g->utc_decimate_factor != eu) {
+                    snprintf(key, sizeof(key), "signals|field|ts-decimate-factor|%s", fk(o));
+                    v_violation("C13", key, wj, "signal %d: annotation/utc decimate factors requested (%u,%u), reported (%u,%u), used for storage (%u,%u)", id,
+                                w->annotation_decimate_factor, w->utc_decimate_factor, g->annotation_decimate_factor, g->utc_decimate_factor, ea, eu);
+                    bad = 1; break;
+                }
+            }
             /* user-specified non-zero parameters can only be rounded up; relations are C16's subject */
             if (w->samples_per_data && g->samples_per_data == 0) { v_violation("C13", "signals|zero-param", wj, "stored samples_per_data is 0"); bad = 1; break; }
         }
